@@ -707,6 +707,16 @@ impl<'a> TypeEncoder<'a> {
             return;
         }
 
+        // An interface may already have been imported as a dependency of an
+        // earlier import or use
+        if let ItemKind::Instance(id) = kind {
+            if let Some(iid) = &self.0[id].id {
+                if iid == name && state.current.instances.contains_key(iid) {
+                    return;
+                }
+            }
+        }
+
         log::debug!("encoding {kind} import `{name}`", kind = kind.desc(self.0));
         let ty = kind.ty();
         let index = self.ty(state, ty, Some(name));
